@@ -79,8 +79,8 @@ def r17a(ctx: Context) -> None:
                     rule.ok(lkey, "clear_property_map=False")
                 else:
                     rule.fail(lkey, site.where, "a configuration file is loaded without clear_property_map=False: it wipes every lower layer instead of overriding it key by key")
-    if loads < 5:
-        raise AnalysisError(f"only {loads} load_and_set calls found (6 confirmed)")
+    if loads < 3:
+        raise AnalysisError(f"only {loads} load_and_set calls found (6 confirmed on the pinned tree; at least the default files, --config and the project file are needed)")
     # --config and --set are guarded by their own arguments only
     project = prog.method(ACH, "__process_project_specific_json_configuration")
     for site in prog.sites_in(project):
@@ -229,22 +229,79 @@ def r17b(ctx: Context) -> None:
                 rule.ok(func_key(decide, read), "tri-state read of 'enabled'")
             else:
                 rule.fail(func_key(decide, read), where(decide, read), "'enabled' is not read as a boolean with default None: an unset key cannot be told from false")
-    # command line: disable before enable, enable only when disable was silent
-    disable_lines = [n.lineno for n in walk_local(cmd.node) if isinstance(n, ast.Assign) and isinstance(n.value, ast.Constant) and n.value.value is False]
-    enable_nodes = [n for n in walk_local(cmd.node) if isinstance(n, ast.Assign) and isinstance(n.value, ast.Constant) and n.value.value is True]
+    # command line: a rule named by -d is off whatever -e says; -e turns it on only when -d was silent; otherwise
+    # the command line is silent (None).  Checked on every path through the function, whatever its shape.
     ckey = func_key(cmd)
-    if not disable_lines or not enable_nodes:
-        rule.fail(ckey, where(cmd), "command-line settings no longer produce both False (disable) and True (enable)")
+    set_params = [a.arg for a in cmd.node.args.args if a.annotation is not None and ast.unparse(a.annotation).startswith(("Set[", "set["))]  # type: ignore[attr-defined]
+    if len(set_params) != 2:
+        raise AnalysisError(f"{cmd.short}: the two command-line rule sets were not found among the parameters")
+    cmd_cfg = CFG(cmd.node, raising=lambda n: False)
+    outcomes: Dict[Tuple[bool, bool], Set[str]] = {}
+    checked_before_true: List[bool] = []
+    for path in enumerate_paths(cmd_cfg, loop_bound=2, budget=20000):
+        if path[-1][0] != cmd_cfg.exit:
+            continue
+        hits = {name: False for name in set_params}
+        infeasible = False
+        seen = {name: False for name in set_params}
+        bound_value: Dict[str, str] = {}
+        result = "None"
+        for nid, label in path:
+            node = cmd_cfg.nodes[nid]
+            stmt = node.ast_node
+            if stmt is None:
+                continue
+            if node.kind == "cond":
+                # prune paths that contradict a constant the path itself has just stored (x = False; ... x is None)
+                tested = stmt.left if isinstance(stmt, ast.Compare) and len(stmt.ops) == 1 and isinstance(stmt.comparators[0], ast.Constant) and stmt.comparators[0].value is None else stmt
+                if isinstance(tested, ast.Name) and tested.id in bound_value:
+                    held = bound_value[tested.id]
+                    if isinstance(stmt, ast.Compare):
+                        truth = (held == "None") if isinstance(stmt.ops[0], ast.Is) else (held != "None") if isinstance(stmt.ops[0], ast.IsNot) else None
+                    else:
+                        truth = held not in ("None", "False", "0", "''")
+                    if truth is not None and truth != (label == "true"):
+                        infeasible = True
+                        break
+                for name in set_params:
+                    if any(isinstance(sub, ast.Name) and sub.id == name for sub in ast.walk(stmt)):
+                        seen[name] = True
+                        if isinstance(stmt, ast.Compare) and isinstance(stmt.ops[0], ast.In) and label == "true":
+                            hits[name] = True
+                        if isinstance(stmt, ast.Compare) and isinstance(stmt.ops[0], ast.NotIn) and label == "false":
+                            hits[name] = True
+            elif isinstance(stmt, ast.Assign) and isinstance(stmt.value, ast.Constant):
+                for target in stmt.targets:
+                    if isinstance(target, ast.Name):
+                        bound_value[target.id] = repr(stmt.value.value)
+            elif isinstance(stmt, ast.Return):
+                value = stmt.value
+                result = "None" if value is None else repr(value.value) if isinstance(value, ast.Constant) else bound_value.get(value.id, "?") if isinstance(value, ast.Name) else "?"
+        if infeasible:
+            continue
+        first, second = set_params
+        outcomes.setdefault((hits[first], hits[second]), set()).add(result)
+        if result == "True":
+            checked_before_true.append(all(seen.values()))
+    single = {name: outcomes.get((name == set_params[0], name == set_params[1]), set()) for name in set_params}
+    disabled = [name for name in set_params if single[name] == {"False"}]
+    enabled = [name for name in set_params if single[name] == {"True"}]
+    if len(disabled) != 1 or len(enabled) != 1:
+        rule.fail(ckey, where(cmd), f"command-line settings no longer produce both False (disable) and True (enable): a rule named in one set only ends as {{{', '.join(f'{n}: {sorted(v)}' for n, v in single.items())}}}")
     else:
-        ok = True
-        for node in enable_nodes:
-            facts = [norm(t) for t, p in guards_of(cmd.node, node) if p]
-            if not any(f.endswith("is None") for f in facts) or node.lineno < min(disable_lines):
-                ok = False
-        if ok:
-            rule.ok(ckey + ": disable wins", "enable applies only when disable left the value None")
+        both = outcomes.get((True, True), set())
+        neither = outcomes.get((False, False), set())
+        problems = []
+        if both - {"False"}:
+            problems.append(f"a rule named in both -d and -e ends as {sorted(both)}, not disabled")
+        if neither - {"None"}:
+            problems.append(f"a rule named in neither set ends as {sorted(neither)}, not undecided")
+        if not all(checked_before_true):
+            problems.append("a path enables a rule without having looked at the disable set first")
+        if problems:
+            rule.fail(ckey + ": disable wins", where(cmd), "; ".join(problems) + ": enable is not conditioned on disable having been silent")
         else:
-            rule.fail(ckey + ": disable wins", where(cmd), "a rule named in both -d and -e is not disabled: enable is not conditioned on disable having been silent")
+            rule.ok(ckey + ": disable wins", f"'{disabled[0]}' hit -> False, '{enabled[0]}' hit alone -> True, both -> False, neither -> None")
     # the command-line decision depends on the command-line sets and the rule's identifiers, nothing else
     param = cmd.params[1] if len(cmd.params) > 1 else "plugin_object"
     for node in walk_local(cmd.node):
